@@ -35,6 +35,8 @@ func travWorker(raw json.RawMessage) interface{} {
 	for i, p := range req.Progs {
 		if req.Mode == "production" {
 			outs[i] = runProduction(env.gi, p, 20*time.Second)
+		} else if req.Mode == "production-honour" {
+			outs[i] = runProduction(honourLoad{env.gi}, p, 20*time.Second)
 		} else {
 			outs[i] = runLiteral(env.gi, p, 20*time.Second)
 		}
@@ -168,7 +170,11 @@ func runTravCases(ctx *Ctx, inputs []c01Input, mode string) []tOutcome {
 		key := in.Driver + string(k)
 		g, ok := byKey[key]
 		if !ok || len(g.idx) >= 200 {
-			g = &grp{req: travReq{Mode: mode, Driver: in.Driver, Graph: in.Graph}}
+			drv := in.Driver
+			if len(drv) > 7 && drv[len(drv)-7:] == "+honour" {
+				drv = drv[:len(drv)-7]
+			}
+			g = &grp{req: travReq{Mode: mode, Driver: drv, Graph: in.Graph}}
 			byKey[key] = g
 			groups = append(groups, g)
 		}
